@@ -145,3 +145,16 @@ Proof.
   exact (propagation_elementwise im n H Nb h1 Km Lm Ld h2 h3 h4 D d prefs nsteps nref rho0 a b Ha Hb HD).
 Qed.
 Print Assumptions c07_uncoupled_sites_propagate_elementwise.
+
+(* the scalar propagation in closed form: one refined step multiplies the element by
+     tfactor prefs c = 1 + p1 c + p1 p2 c^2 + ... + p1..pL c^L      (p_l = dt / l : the order-L truncated exponential of dt c)
+   and then by the element's dephasing factor - for every list of prefactors, i.e. every expansion order *)
+Theorem c07_uncoupled_step_is_truncated_exponential : forall (R : StarRing) (cf d : nat -> R) prefs j x,
+  gstep (radd R) (rmul R) (fun j x => rmul R (cf j) x) (fun j x => rmul R x (d j)) prefs j x
+  = rmul R (rmul R x (tfactor prefs (cf j))) (d j).
+Proof. intros R cf d prefs j x. exact (scalar_gstep cf d prefs j x). Qed.
+Print Assumptions c07_uncoupled_step_is_truncated_exponential.
+
+Example c07_example_truncated_exponential_order2 : forall (R : StarRing) (p1 p2 c : R),
+  tfactor [p1; p2] c = radd R (radd R (r1 R) (rmul R p1 c)) (rmul R (rmul R p1 p2) (rmul R c c)).
+Proof. intros R p1 p2 c. exact (tfactor_order2 p1 p2 c). Qed.
